@@ -63,92 +63,151 @@ func ruleBulkRun(c *core.Ctx) {
 	}
 	info := d.Pkg.TypesInfo
 	key := declKey(d)
+	txWrapIx = index(c)
 	rulePair(c, d)
+	flow := astx.NewFlow(info, d.Decl.Body)
 	// Validate first
 	val := callsTo(info, d.Decl.Body, named("Validate"))
 	beg := callsTo(info, d.Decl.Body, named("BeginTX"))
 	run := callsTo(info, d.Decl.Body, named("run"))
-	okFirst := len(val) == 1 && len(beg) == 1 && len(run) == 1 && val[0].Pos() < beg[0].Pos() && val[0].Pos() < run[0].Pos()
-	if okFirst {
-		// its error leaves the function
-		flow := astx.NewFlow(info, d.Decl.Body)
-		okFirst = flow.Dominates(val[0], run[0])
-		var is *ast.IfStmt
-		ast.Inspect(d.Decl.Body, func(n ast.Node) bool {
-			if i, ok := n.(*ast.IfStmt); ok && i.Init != nil && i.Init.Pos() <= val[0].Pos() && val[0].End() <= i.Init.End() {
-				is = i
+	recFirst := len(val) >= 1 && len(run) >= 1
+	okFirst := recFirst
+	if recFirst {
+		// its error leaves the function, and it comes before every BeginTX and every run
+		for _, later := range append(append([]*ast.CallExpr{}, beg...), run...) {
+			dom := false
+			for _, v := range val {
+				if flow.Dominates(v, later) {
+					dom = true
+				}
 			}
-			return true
-		})
-		okFirst = okFirst && is != nil && astx.Terminates(info, is.Body.List)
+			okFirst = okFirst && dom
+		}
+		for _, v := range val {
+			checked := false
+			ast.Inspect(d.Decl.Body, func(n ast.Node) bool {
+				if i, ok := n.(*ast.IfStmt); ok && i.Init != nil && i.Init.Pos() <= v.Pos() && v.End() <= i.Init.End() && astx.Terminates(info, i.Body.List) {
+					checked = true
+				}
+				return true
+			})
+			checked = checked || assignedErrChecked(info, d.Decl.Body, v)
+			okFirst = okFirst && checked
+		}
 	}
 	if v := fn(c, pkgBulk, "BulkingOptions", "Validate"); v != nil {
-		rej := false
+		rej, seen := false, false
 		ast.Inspect(v.Decl.Body, func(n ast.Node) bool {
 			if is, ok := n.(*ast.IfStmt); ok {
-				s := types.ExprString(is.Cond)
-				if (s == "opts.Atomic && opts.Parallel" || s == "opts.Parallel && opts.Atomic") && astx.Terminates(v.Pkg.TypesInfo, is.Body.List) {
-					if r, ok := is.Body.List[len(is.Body.List)-1].(*ast.ReturnStmt); ok && len(r.Results) == 1 && !astx.IsNilExpr(v.Pkg.TypesInfo, r.Results[0]) {
-						rej = true
+				var at, pa bool
+				for _, cj := range splitAnd(is.Cond) {
+					t := types.ExprString(ast.Unparen(cj))
+					at = at || strings.HasSuffix(t, ".Atomic")
+					pa = pa || strings.HasSuffix(t, ".Parallel")
+				}
+				if at && pa && len(splitAnd(is.Cond)) == 2 {
+					seen = true
+					if astx.Terminates(v.Pkg.TypesInfo, is.Body.List) {
+						if r, ok := is.Body.List[len(is.Body.List)-1].(*ast.ReturnStmt); ok && len(r.Results) == 1 && !astx.IsNilExpr(v.Pkg.TypesInfo, r.Results[0]) {
+							rej = true
+						}
 					}
 				}
 			}
 			return true
 		})
+		if !seen {
+			// the refusal is written some other way (nested ifs, a switch): recognised only when
+			// both flags are read at all
+			recFirst = false
+		}
 		okFirst = okFirst && rej
 	}
-	c.Check(okFirst, "DOM/bulk-validate-first", key, pos(c, d.Decl), "Validate (atomic ∧ parallel refused) before BeginTX and run", "bulk options are not validated (atomic together with parallel refused) before the bulk starts: elements of an 'atomic' bulk could run concurrently on one SQL transaction")
-	// BeginTX exactly when Atomic
-	okAtomic := false
-	if len(beg) == 1 {
-		var fs []string
-		for _, f := range astx.FactsAt(info, d.Decl.Body, beg[0].Pos()) {
-			s := types.ExprString(f.Cond)
-			if strings.HasPrefix(s, "err ") {
-				continue
-			}
-			fs = append(fs, fmt.Sprintf("%v:%s", f.Positive, s))
-		}
-		okAtomic = len(fs) == 1 && fs[0] == "true:bulkOptions.Atomic"
+	c.Shape(recFirst, okFirst, "DOM/bulk-validate-first", key, pos(c, d.Decl), "Validate (atomic ∧ parallel refused) before BeginTX and run", "bulk options are not validated (atomic together with parallel refused) before the bulk starts: elements of an 'atomic' bulk could run concurrently on one SQL transaction")
+	// BeginTX exactly when Atomic: every BeginTX sits on the positive side of the Atomic flag, and,
+	// assuming the flag, no run call is reached without passing a BeginTX
+	isAtomic := func(e ast.Expr) bool {
+		se, ok := ast.Unparen(e).(*ast.SelectorExpr)
+		return ok && se.Sel.Name == "Atomic"
 	}
-	c.Check(okAtomic, "PAIR/bulk-begin-when-atomic", key, pos(c, d.Decl), "BeginTX iff bulkOptions.Atomic", "the transaction of a bulk must be opened exactly when the bulk is atomic")
-	// Commit only when no element failed: derive hasError == false at the Commit
-	var hasErr types.Object
+	var atomicConds []string
 	ast.Inspect(d.Decl.Body, func(n ast.Node) bool {
-		if as, ok := n.(*ast.AssignStmt); ok && len(as.Rhs) == 1 && len(run) == 1 && as.Rhs[0] == run[0] {
-			if id, ok := as.Lhs[0].(*ast.Ident); ok {
-				hasErr = info.ObjectOf(id)
+		if e, ok := n.(ast.Expr); ok && isAtomic(e) {
+			atomicConds = append(atomicConds, types.ExprString(ast.Unparen(e)))
+		}
+		return true
+	})
+	var assumeAtomic []astx.Assumption
+	for _, a := range atomicConds {
+		assumeAtomic = append(assumeAtomic, astx.Assumption{Cond: a, Value: true})
+	}
+	recAtomic := len(beg) >= 1 && len(run) >= 1 && len(atomicConds) > 0
+	okAtomic := recAtomic
+	for _, b := range beg {
+		onPos := false
+		for _, f := range astx.FactsAt(info, d.Decl.Body, b.Pos()) {
+			if isAtomic(f.Cond) && f.Positive {
+				onPos = true
+			}
+		}
+		okAtomic = okAtomic && onPos
+	}
+	isBegin := func(n ast.Node) bool {
+		found := false
+		ast.Inspect(n, func(x ast.Node) bool {
+			if call, ok := x.(*ast.CallExpr); ok {
+				for _, b := range beg {
+					if call == b {
+						found = true
+					}
+				}
+			}
+			return !found
+		})
+		return found
+	}
+	for _, r := range run {
+		if l, ok := flow.Locate(r); ok {
+			if flow.PathAvoidingAssuming(nil, astx.Exit{Block: l.Block, Idx: l.Idx}, isBegin, assumeAtomic) {
+				okAtomic = false
+			}
+		}
+	}
+	c.Shape(recAtomic, okAtomic, "PAIR/bulk-begin-when-atomic", key, pos(c, d.Decl), "BeginTX iff bulkOptions.Atomic", "the transaction of a bulk must be opened exactly when the bulk is atomic")
+	// Commit only when no element failed: assuming an atomic bulk whose run reported a failure,
+	// no path leads from the run call to a Commit
+	var hasErrNames []string
+	var runAssigns []ast.Node
+	ast.Inspect(d.Decl.Body, func(n ast.Node) bool {
+		if as, ok := n.(*ast.AssignStmt); ok && len(as.Rhs) == 1 && len(as.Lhs) == 1 {
+			for _, r := range run {
+				if as.Rhs[0] == r {
+					if id, ok := as.Lhs[0].(*ast.Ident); ok && id.Name != "_" {
+						hasErrNames = append(hasErrNames, id.Name)
+						runAssigns = append(runAssigns, as)
+					}
+				}
 			}
 		}
 		return true
 	})
-	okCommit := false
-	for _, call := range callsTo(info, d.Decl.Body, named("Commit")) {
-		facts := astx.FactsAt(info, d.Decl.Body, call.Pos())
-		atomicTrue := false
-		for _, f := range facts {
-			if f.Positive && types.ExprString(f.Cond) == "bulkOptions.Atomic" {
-				atomicTrue = true
-			}
-		}
-		for _, f := range facts {
-			if f.Positive {
-				continue
-			}
-			be, ok := ast.Unparen(f.Cond).(*ast.BinaryExpr)
-			if !ok || be.Op != token.LAND {
-				continue
-			}
-			// ¬(hasError ∧ Atomic) ∧ Atomic ⇒ ¬hasError
-			l, r := ast.Unparen(be.X), ast.Unparen(be.Y)
-			isHas := func(e ast.Expr) bool { id, ok := e.(*ast.Ident); return ok && info.Uses[id] == hasErr && hasErr != nil }
-			isAtomic := func(e ast.Expr) bool { return types.ExprString(e) == "bulkOptions.Atomic" }
-			if atomicTrue && ((isHas(l) && isAtomic(r)) || (isHas(r) && isAtomic(l))) {
-				okCommit = true
+	commits := callsTo(info, d.Decl.Body, named("Commit"))
+	recCommit := len(hasErrNames) > 0 && len(commits) > 0
+	okCommit := recCommit
+	assumeFail := append([]astx.Assumption{}, assumeAtomic...)
+	for _, h := range hasErrNames {
+		assumeFail = append(assumeFail, astx.Assumption{Cond: h, Value: true})
+	}
+	for _, ra := range runAssigns {
+		for _, cm := range commits {
+			if l, ok := flow.Locate(cm); ok {
+				if flow.PathAvoidingAssuming(ra, astx.Exit{Block: l.Block, Idx: l.Idx}, func(ast.Node) bool { return false }, assumeFail) {
+					okCommit = false
+				}
 			}
 		}
 	}
-	c.Check(okCommit, "PAIR/bulk-commit-only-without-error", key, pos(c, d.Decl), "Commit reachable only with hasError == false", "an atomic bulk can reach Commit although an element failed: the elements that succeeded would be applied, breaking all-or-nothing")
+	c.Shape(recCommit, okCommit, "PAIR/bulk-commit-only-without-error", key, pos(c, d.Decl), "Commit unreachable from run when it reported a failure", "an atomic bulk can reach Commit although an element failed: the elements that succeeded would be applied, breaking all-or-nothing")
 	// elements run on the selected controller
 	if len(run) == 1 && len(run[0].Args) >= 2 {
 		arg := astx.ExprString(run[0].Args[1])
